@@ -17,7 +17,8 @@ pub const N_FAMILIES: u8 = 10;
 /// underflow / overflow in the statistics machines
 pub const FAM_TINY: u8 = 10;
 pub const FAM_HUGE: u8 = 11;
-pub const FAMILY_NAMES: [&str; 12] = [
+pub const FAM_VANISHING: u8 = 12;
+pub const FAMILY_NAMES: [&str; 13] = [
     "uniform-positive",
     "mixed-sign-gaussian",
     "log-uniform-wide",
@@ -30,6 +31,7 @@ pub const FAMILY_NAMES: [&str; 12] = [
     "random-walk-increments",
     "subnormal-range",
     "huge-magnitudes",
+    "head-plus-vanishing-increments",
 ];
 pub const FAM_EXACT: u8 = 4;
 
@@ -52,7 +54,7 @@ impl TapeSpec {
         match self {
             TapeSpec::Explicit(v) => json!({"hex": v.iter().map(|b| format!("{:x}", b)).collect::<Vec<_>>() }),
             TapeSpec::Gen { family, seed, len, flt, positive, scale_exp } => json!({"gen": {
-                "family": family, "family_name": FAMILY_NAMES[*family as usize % 12], "seed": format!("{:x}", seed), "len": len,
+                "family": family, "family_name": FAMILY_NAMES[*family as usize % 13], "seed": format!("{:x}", seed), "len": len,
                 "flt": match flt { Flt::F32 => "f32", Flt::F64 => "f64", Flt::Int => "int" },
                 "positive": positive, "scale_exp": scale_exp }}),
         }
@@ -119,6 +121,7 @@ pub fn gen_tape(family: u8, seed: u64, len: usize, flt: Flt, positive: bool, sca
     let konst = scale * (0.1 + r.unit());
     let big = scale * 10f64.powf(2.0 + 4.0 * r.unit());
     let walk_step = scale * 1e-3;
+    let tiny_ratio = 10f64.powf(-3.0 - 17.0 * r.unit());
     let mut pending: Option<f64> = None;
     let mut special_prev = false;
     for i in 0..len {
@@ -167,6 +170,15 @@ pub fn gen_tape(family: u8, seed: u64, len: usize, flt: Flt, positive: bool, sca
                     big
                 } else {
                     scale * 0.1
+                }
+            }
+            12 => {
+                // a head followed by same-sign increments that are 3 .. 20 decades smaller (far
+                // below the resolution of the running sum: they live in the compensation only)
+                if i == 0 {
+                    big
+                } else {
+                    big * tiny_ratio
                 }
             }
             9 => walk_step * (1.0 + (i % 7) as f64) * if r.chance(0.9) { 1.0 } else { -1.0 },
